@@ -2072,15 +2072,26 @@ def main(ctx):
         "stale_id_definitions": [d[0] for d in STALE_DEFS], "stale_id_histories": list(STALE_HIST),
         "long_edge_steps": list(LK), "long_edge_directions": [list(d) for d in LDIRS],
         "long_edge_crs_pairs": [f"{a}->{b} resolution {r}" for a, b, r, _ in LPAIRS],
-        "tolerances": {"same-crs geometry": "1e-9*(|coord|+edge length)", "vertex vs pyproj": "1e-9*(|value|+1)",
-                       "there-and-back / inverse-mapped": "1e-6*(|value|+...)"},
+        "tolerances": {"same-crs geometry": "1e-9*edge length + 16 ulp(|coord|)", "vertex vs pyproj": "bit-equal or 16 ulp",
+                       "there-and-back / inverse-mapped": "1e-6*(|value|+...)", "cut at lon 180": "25 m + 1e-6*|value|"},
+        "boundary_steps": [repr(x) for x in BFACT], "boundary_edge_lengths": list(BSCALES),
+        "pieces_beyond_16_bits": list(BHUGE), "odd_resolutions": list(ODD_NONPOS + ODD_ENC) + ["auto on zero area"],
+        "child_process_time_limit_s": GUARD_LIMIT_S, "coordinate_encodings": list(ENCODINGS),
+        "near_same_definitions": [d[0] for d in NS_DEFS], "crossing_scenarios": [c[0] for c in CROSS],
     }
     ctx.assumptions = [
-        "resolution > 0 (finite or inf); 0, negative and NaN resolutions are outside the property "
-        "(no finite densification can satisfy it) and are not enumerated - segmented(0) does not terminate",
-        "resolution='auto' names no resolution: retained-vertices / on-edge / structure clauses are judged, the "
-        "maximum edge length is not; 'auto' is only enumerated for geometries with positive area "
-        "(for a line it evaluates to resolution 0 and to_crs does not terminate - reported as an observation)",
+        "resolutions that are not a positive number (0, -0.0, negative, -inf, nan, numpy zero): the call has to "
+        "terminate (child process, hard time limit) and either refuse with ValueError or return a geometry that "
+        "keeps structure / original vertices / on-edge; numpy scalars, ints and 0-d arrays count as their float value",
+        "resolution='auto': on geometries with positive area no maximum edge length is judged (no resolution is "
+        "named); on zero-area geometries with positive length the maintainers' contract length/100 is judged",
+        "check_and_fix on a geometry that is invalid after projection is judged by its documented contract only "
+        "(valid, finite; mappable vertices of lines / points kept in order); wrapdateline on a geometry crossing "
+        "lon 180: parts within [-180,180], none spanning 180 deg, vertices map back onto the input, areas / "
+        "lengths add up, original vertices present, no non-cut edge longer than the resolution",
+        "Geometry constructors refusing np.float32 / np.int32 coordinates (ValueError) is construction, not C07: observed",
+        "a definition pyproj does not call equal to the target but identifies as the same EPSG code (datum-less "
+        "PROJ string vs EPSG:3035): both 'input returned' and 'projected + relabelled' are accepted",
         "empty geometries are not among the kinds the property lists: Polygon().segmented(r) raising IndexError is "
         "counted as an observation (counters), not a violation; empty geometries are judged where no "
         "densification is requested",
